@@ -532,13 +532,17 @@ def run(tier, seed):
     wd = lib.workdir("C56", "gen")
     (wd / "configs.json").write_text(json.dumps([_tlc_cfg(c) for c in cfgs]))
     invs = ["PreOK", "FitsOK", "InjectiveOK", "WorkRestoredOK", "EncOK"]
-    g = lib.run_tlc("ArithGen", lib.cfg(constants={"NCONFIGS": len(cfgs)}, invariants=invs), wd,
+    maxb = 3 if tier == "quick" else 4
+    g = lib.run_tlc("ArithGen", lib.cfg(constants={"NCONFIGS": len(cfgs), "MAXB": maxb}, invariants=invs), wd,
                     env={"CFG_FILE": str(wd / "configs.json")}, timeout=3000)
     if g.invariant_violated:
         raise lib.MachineryError(f"the documented-function model violates {g.invariant_violated} (oracle / configuration error): "
                                  + g.out[-1500:])
     lib.require_ok(g, "ArithGen")
     tabs = {j["cid"] - 1: j for j in g.json_lines}
+    sweep = next((t[1] for t in g.tuples if t[0] == "SWEEP"), 0)
+    if sweep < 100 or g.distinct < 2 * (len(cfgs) + sweep):
+        raise lib.MachineryError(f"model sweep incomplete: {sweep} parameter choices, {g.distinct} states")
     if len(tabs) != len(cfgs) or not all(j["pre"] and j["n"] >= 1 for j in tabs.values()):
         raise lib.MachineryError(f"generator tables not total: {len(tabs)} of {len(cfgs)}")
     # ---- replay into the real templates (process pool: the simulations are independent)
@@ -652,12 +656,13 @@ def run(tier, seed):
            "traces_validated_against_impl": n_real, "evaluations": n_eval, "distinct_nontrivial": len(nontriv),
            "rule": "ArithGen.tla tabulates every basis input of the documented domain of each configuration; non-trivial = distinct "
                    "(configuration, decomposition path) validated ok in which at least one basis input is mapped to a different basis state",
-           "samples": samples, "exhaustive": True, "configurations": len(cfgs),
+           "samples": samples, "exhaustive": False, "exhaustive_basis_inputs_per_configuration": True,
+           "configurations": len(cfgs),
            "basis_inputs_tabulated": sum(j["n"] for j in tabs.values()),
            "evaluations_per_template": per_t, "paths": {k: sorted(v) for k, v in sorted(paths_seen.items())},
            "unbatched_basisstate_probs_readouts": sum(rec["single"] for recs in results.values() for rec in recs),
            "superposition_checks": sum(1 for tr in traces[:n_real] if tr["sup"]),
-           "model_invariants": invs, "negative_controls_rejected": len(negs), "negative_controls_with_intended_clause": nneg,
+           "model_invariants": invs, "model_sweep_parameter_choices": sweep, "model_sweep_max_bits": maxb, "negative_controls_rejected": len(negs), "negative_controls_with_intended_clause": nneg,
            "outside_preconditions_raised": raised, "outside_preconditions_accepted_silently": silent,
            "replay_cpu_s": round(cpu, 1),
            "slowest_configurations": [{"cpu_s": round(t, 1), "config": _class_tag(cfgs[i]), "N": cfgs[i]["N"], "inputs": tabs[i]["n"]}
